@@ -1,5 +1,6 @@
 """R2: shared per-name vectors are mutated atomically and only for the own file (C09)."""
 import re
+from collections import defaultdict
 from ..check import Result
 from ..facts import DbInfo, closure_predicate_shape
 from ..core import op_local, place_local
@@ -339,6 +340,9 @@ def r2g_canonicaliser_whole_path(ctx):
         for m in sorted(pp_maps):
             for op in db.ops_by_map.get(m, []):
                 if op.mode == "X" and op.method in ("insert", "entry", "get_mut", "alter") and op.fn.root != f.id:
+                    users = {g.root for g in crate.real_fns() for _bb, c2 in g.calls() if c2.get("res") == op.fn.root and g.root != op.fn.root}
+                    if users and users <= {f.id}:
+                        continue  # a store helper of the canonicaliser itself
                     r.violate("R2g|%s|%s written outside the canonicaliser" % (op.fn.root, m),
                               "%s writes the path memo `%s` (%s at %s); only %s, which asks the file system, may" % (
                                   op.fn.root, m, op.method, crate.span_str(op.call["span"]), f.id.split("::")[-1]))
@@ -346,7 +350,15 @@ def r2g_canonicaliser_whole_path(ctx):
     return r
 
 
-def _iterates_open_documents(crate, fid):
+def _canonicalises(crate, fid):
+    g = crate.fns.get(fid)
+    if g is None:
+        return False
+    return any(re.search(r"Path::canonicalize$|fs::canonicalize$", c.get("res") or "")
+               for x in crate.real_fns() if x.root == g.root for _b, c in x.calls())
+
+
+def _iterates_open_documents(crate, fid, depth=0):
     """function fid (or the function it is nested in) iterates a concurrent map field of type PathBuf -> Uri (the open documents,
     keyed by the canonical path the Uri converter produced)"""
     from ..core import proj_fields, place_projs
@@ -366,6 +378,13 @@ def _iterates_open_documents(crate, fid):
                     if fld["name"] == n and re.search(r"DashMap<std::path::PathBuf, [^>]*\bUri\b", fld["ty"]):
                         if any(re.search(r"DashMap::<[^>]*>::iter$|DashMap::<K, V, S>::iter$", c.get("res") or "") for _b, c in x.calls()):
                             return True
+    if depth == 0:
+        # a snapshot of the open documents taken by a helper (`self.open_documents_sorted()`) and walked here
+        for x in fam:
+            for _b, c in x.calls():
+                if c.get("res_local") and c.get("res") in crate.fns and crate.fns[c["res"]].root != g.root and \
+                        "PathBuf" in crate.fns[c["res"]].ret and _iterates_open_documents(crate, c["res"], 1):
+                    return True
     return False
 
 
@@ -421,6 +440,9 @@ def r2h_handlers_pass_canonical_paths(ctx):
                         continue
                     if t[0] == "call" and re.search(r"Iterator>?::next$", t[2] or "") and _iterates_open_documents(crate, t[1]):
                         continue  # a key of the map of open documents (path -> Uri), stored there under the canonical path
+                    if t[0] == "call" and re.search(r"(Result|Option)::<[^>]*>::unwrap_or(_else)?$|::unwrap_or(_else)?$", t[2] or "") and \
+                            _canonicalises(crate, t[1]):
+                        continue  # `p.canonicalize().unwrap_or_else(|_| p.clone())`: canonical whenever the path exists
                     bad.append("%s %s" % (t[0], (t[2] if t[0] == "call" else str(t[1])).split("::")[-1] if len(t) > 2 else t[1]))
                 key = "R2h|%s|%s arg%d" % (f.root, callee.split("::")[-1], i)
                 if bad:
@@ -433,12 +455,21 @@ def r2h_handlers_pass_canonical_paths(ctx):
 
 
 def r2i_cleanup_loop_runs_to_the_end(ctx):
-    r = Result("R2i", "a loop that walks a snapshot of keys and prunes entries of a shared map in its body (get_mut, "
-                      "remove_if, retain directly in the loop; a plain eviction by remove() may stop when it has freed enough) is left only when the snapshot is exhausted: no `return`, "
-                      "`break` or `?` inside it. A key that vanished meanwhile is skipped (`continue`); leaving the loop there "
-                      "keeps the stale entries of every later key, and whether that happens depends on the schedule")
+    r = Result("R2i", "a loop that walks a snapshot of keys and prunes entries of an INDEX map of the fixture database in its body "
+                      "(get_mut / remove_if / retain on a per-name or per-file map, directly in the loop or in a helper the loop "
+                      "calls; caches and maps of other types are not index maps) is left only when the snapshot is exhausted: no "
+                      "`return`, `break` or `?` inside it. A key that vanished meanwhile is skipped (`continue`); leaving the loop "
+                      "there keeps the stale entries of every later key, and whether that happens depends on the schedule")
     from .r1e import natural_loops, _iterator_driven, _exit_switches
     crate = ctx.bin
+    db = _db(ctx)
+    index_maps = set(db.shared_by_name()) | set(db.per_file_index())
+    prune_ops = defaultdict(set)      # fn id -> blocks with a pruning operation on an index map
+    for m in index_maps:
+        for op in db.ops_by_map.get(m, []):
+            if op.method in ("remove_if", "get_mut", "retain", "remove_if_mut", "alter"):
+                prune_ops[op.fn.id].add(op.bb)
+    pruners = {crate.fns[fid].root for fid in prune_ops if fid in crate.fns}
     n = 0
     for f in crate.real_fns():
         if "_serde::" in f.id or f.id.startswith("<"):
@@ -446,28 +477,25 @@ def r2i_cleanup_loop_runs_to_the_end(ctx):
         for h, latches, body in natural_loops(f):
             if not _iterator_driven(f, h, body):
                 continue
-            muts = []
+            muts = [f.blocks[b]["t"][1] for b in sorted(body) if b in prune_ops.get(f.id, ()) and f.blocks[b]["t"][0] == "call"]
             for b in sorted(body):
                 t = f.blocks[b]["t"]
-                if t[0] != "call":
-                    continue
-                res = t[1].get("res") or t[1].get("fn") or ""
-                if re.search(r"dashmap", res, re.I) and re.search(r"::_?(remove_if|get_mut|retain)(::<.*>)?$", res):
-                    muts.append(t[1])
+                if t[0] == "call" and t[1].get("res_local") and t[1].get("res") in pruners and t[1].get("res") != f.root:
+                    muts.append(t[1])      # the body of the loop was extracted into a helper
             if not muts:
                 continue
             n += 1
             ex = _exit_switches(f, body)
             key = "R2i|%s|clean-up loop left early" % f.id
             if len(ex) > 1:
-                r.violate(key, "the clean-up loop in %s (prunes a shared map at %s) has %d ways out besides the end of its "
+                r.violate(key, "the clean-up loop in %s (prunes an index map at %s) has %d ways out besides the end of its "
                                "snapshot (e.g. the test at %s)" % (
                                    f.id, crate.span_str(muts[0]["span"]), len(ex) - 1,
                                    crate.span_str(_term_span(f, ex[-1][0]))))
             else:
                 r.ok(sample={"loop in": f.id.split("::")[-1], "prunes with": sorted({(m.get("res") or "").split("::")[-1] for m in muts})}
                      if len(r.samples) < 4 else None)
-    r.floor("clean-up loops over shared maps", n, 2)
+    r.floor("clean-up loops over index maps", n, 2)
     return r
 
 
